@@ -952,4 +952,20 @@ example :
     proteinsStr [114, 101, 118, 95] true { samplePep with proteins := [[80, 49], [81]] } = [80, 49, 59, 81] := by
   decide
 
+/-! ## no digest at all: the empty database (guard in `group_digests`) -/
+
+/-- **C07.groupDigests_nil** — an empty digest list gives no groups (it used to index `digests[0]` and panic). -/
+theorem groupDigests_nil : groupDigests [] = some [] := by
+  simp [groupDigests, isort]
+
+/-- **C07.digestRecs_no_digest** — records none of which yields a peptide build the EMPTY database. -/
+theorem digestRecs_no_digest {α : Type} [Add α] [OfNat α 0] [BEq α] [LE α] [DecidableLE α] (cfg : Cfg α)
+    (recs : List (Bytes × Bytes)) (h : fastaDigest cfg.par cfg.tag cfg.gen recs = []) : digestRecs cfg recs = some [] := by
+  unfold digestRecs
+  rw [h, groupDigests_nil]
+  simp [buildForms, reorder, mergeAll, mergeFuel]
+
+/-- non-vacuity: no record at all -/
+example : fastaDigest (⟨0, 5, 50, none⟩ : C05.Params) [114] true [] = [] := rfl
+
 end Sage.C07
